@@ -1,5 +1,6 @@
 /* map world: C08 (one entry per key, never replaced or lost silently) and the map part of C15 */
 #include "cstl/map.h"
+#include <limits.h>
 #define W_AUDIT_NEW_STATES_ONLY 1   /* the key holds the implementation's raw state AND the reference model, so the audit verdict is a function of the key */
 #include "../engine/mc.h"
 #include <sanitizer/asan_interface.h>
@@ -32,8 +33,8 @@ enum { K_INS_EXISTING, K_INS_EXISTING_TWIN, K_ERASE_ABSENT, K_ERASE_PRESENT, K_C
 static const char *w_counter_names[] = { "insert_of_existing_key", "insert_of_existing_key_via_other_key_object", "erase_absent_key", "erase_present_key", "clear_applied", "clear_on_nonempty", NULL };
 
 struct cfg { int nkv, twins, nv, cmp; };
-static const struct cfg quick_cfgs[] = { { 5, 2, 2, 0 }, { 4, 2, 3, 1 }, { 10, 0, 1, 0 }, { 6, 1, 2, 2 }, { 10, 0, 1, 2 }, { 8, 1, 1, 1 } };
-static const struct cfg thorough_cfgs[] = { { 6, 2, 2, 0 }, { 5, 2, 3, 1 }, { 12, 0, 1, 0 }, { 7, 1, 2, 2 }, { 10, 1, 1, 1 }, { 12, 0, 1, 2 }, { 7, 2, 2, 1 }, { 11, 0, 1, 1 } };
+static const struct cfg quick_cfgs[] = { { 5, 2, 2, 0 }, { 4, 2, 3, 1 }, { 10, 0, 1, 0 }, { 6, 1, 2, 2 }, { 10, 0, 1, 2 }, { 8, 1, 1, 1 }, { 6, 1, 2, 3 } };
+static const struct cfg thorough_cfgs[] = { { 6, 2, 2, 0 }, { 5, 2, 3, 1 }, { 12, 0, 1, 0 }, { 7, 1, 2, 2 }, { 10, 1, 1, 1 }, { 12, 0, 1, 2 }, { 7, 2, 2, 1 }, { 11, 0, 1, 1 }, { 9, 1, 1, 3 } };
 static const struct cfg *cfgs(int thorough, int *n)
 {
     if (thorough) { *n = (int)(sizeof thorough_cfgs / sizeof thorough_cfgs[0]); return thorough_cfgs; }
@@ -49,7 +50,7 @@ static void w_setup(int cfg, int thorough)
     for (i = 0; i < 13 && NK < NKV; i++) if (perm[i] < NKV) kvals[NK++] = perm[i];
     for (i = 0; i < c->twins; i++) kvals[NK++] = 1 + i;          /* second key objects comparing equal to keys 1, 2 */
     snprintf(cfgdesc, sizeof cfgdesc, "cstl_map, %d key values (+%d equal-comparing twin key objects), %d value tokens, comparator %s", NKV, c->twins, NV,
-             CMPMODE == 0 ? "a-b" : CMPMODE == 1 ? "sign only" : "reversed");
+             CMPMODE == 0 ? "a-b" : CMPMODE == 1 ? "sign only" : CMPMODE == 2 ? "reversed" : "INT_MIN/0/INT_MAX");
     w_nops = 0;
     for (i = 0; i < NK; i++) for (v = 0; v < NV; v++) w_ops[w_nops++] = OP(O_INSERT, i, v);
     for (i = 0; i < NK; i++) w_ops[w_nops++] = OP(O_INSERT_NOIT, i, 0);
@@ -67,6 +68,7 @@ static int cmp_key(const void *a, const void *b, void *p)
     MC_CHECK(PC08, p == (void *)&CMPMODE, "comparator received a wrong private pointer");
     if (CMPMODE == 1) return d < 0 ? -1 : d > 0;
     if (CMPMODE == 2) return -d;
+    if (CMPMODE == 3) return d < 0 ? INT_MIN : d > 0 ? INT_MAX : 0;
     return d;
 }
 static void w_init(void)
@@ -240,6 +242,8 @@ static void w_canon(void)
     }
     cstl_rbtree_foreach(&M.t, cb_shape, NULL, CSTL_BINTREE_FOREACH_DIR_FWD);
     KB_C('m'); for (i = 0; i < NKV; i++) { KB_I(m_key[i]); KB_C('/'); KB_I(m_val[i]); KB_C(' '); }
+    for (i = 0; i < NK; i++) if (K[i].pad != 0x1111 || K[i].tail != 0x2222 || K[i].kv != kvals[i]) { KB_C('X'); KB_U((unsigned)i); }
+    for (i = 0; i < NV; i++) if (V[i].pad != 0x1111 || V[i].tail != 0x2222) { KB_C('Y'); KB_U((unsigned)i); }
 }
 static void w_opname(mc_op_t o, char *b, size_t n)
 {
